@@ -153,16 +153,17 @@ Definition observe (L : Z) (s : t) (o : op) : option (t * list Z) :=
       end
   end.
 
-Fixpoint run_ops (L : Z) (s : t) (os : list op) : option (list (list Z)) :=
+(** final state and the observations; [None] = some op panicked *)
+Fixpoint run_ops (L : Z) (s : t) (os : list op) : option (t * list (list Z)) :=
   match os with
-  | [] => Some []
+  | [] => Some (s, [])
   | o :: r =>
       match observe L s o with
       | None => None
       | Some (s', out) =>
           match run_ops L s' r with
           | None => None
-          | Some outs => Some (out :: outs)
+          | Some (s'', outs) => Some (s'', out :: outs)
           end
       end
   end.
@@ -192,7 +193,7 @@ Definition run_with (L : Z) (i : ops) : outs :=
   | Some os =>
       match run_ops L (new L 0) os with
       | None => [PANIC]
-      | Some o => o
+      | Some (_, o) => o
       end
   end.
 
